@@ -1,1 +1,356 @@
-(* Props/C16.v -- stub, to be filled *)
+(* C16 -- SET components encoded in canonical tag order; tags assigned per X.680.
+   This file only pins statements; the model is Front/Tags.v, proofs live in Front/TagsProofs.v.
+
+   What holds of the code (full theorems, any number of components):
+     C16_canonical_le_is_X680_8_6, C16_set_sorted, C16_set_stable, C16_sequence_textual, C16_tag_rules,
+     C16_automatic_tags, C16_presence_order.
+   Where the code leaves X.680 / X.691 (each with a computed witness and a narrow class):
+     context_tags_without_automatic_tags, additions_sorted_by_tag, marker_before_first_component,
+     empty_extensible_panic, untagged_choice_ref_automatic, field_tag_const, set_own_tag;
+     C16_conformant states what remains true outside these classes. *)
+From A1 Require Import Front.Tags Front.TagsProofs Gen.TagConsts.
+From Coq Require Import Sorting.Permutation Sorting.Sorted.
+Local Open Scope N_scope.
+
+(* ------------------------------------------------------------------------- *)
+(** * Full theorems *)
+
+(* The order `enum Tag` derives is UNIVERSAL < APPLICATION < context < PRIVATE, then the number.  Proved
+   against the variant order generated from asn/tag.rs. *)
+Theorem C16_canonical_le_is_X680_8_6 :
+  TAG_DERIVES_ORD = 1 /\
+  (forall a b : tag, tag_le a b = true <-> x680_le a b) /\
+  (forall a b : tag, tag_cmp a b = Eq -> a = b) /\
+  (forall a b : tag, tag_cmp a b = Gt -> tag_cmp b a = Lt).
+Proof.
+  split; [reflexivity|]. split; [exact tag_le_is_x680_le|]. split; [exact tag_cmp_eq|exact tag_cmp_gt_lt].
+Qed.
+
+(* SET: the emitted order is a rearrangement of the fields; the fields in front of the first addition come
+   first, ascending by tag; the additions follow, ALSO ascending by tag (the code sorts them too); the sort
+   succeeds whenever every field has a tag to be sorted by. *)
+Theorem C16_set_sorted : forall fs ext,
+  (forall out, sort_fields_canonically fs ext = Ok out ->
+     let filled := map fill fs in
+     let nroot := root_count ext (length fs) in
+     exists roots adds,
+       out = roots ++ adds
+       /\ Permutation roots (firstn nroot filled) /\ Permutation adds (skipn nroot filled)
+       /\ Sorted ftag_le roots /\ Sorted ftag_le adds
+       /\ Permutation out filled
+       /\ Forall (fun f => exists t, rf_tag f = Some t) out)
+  /\ (Forall (fun f => sort_tag f <> None) fs -> exists out, sort_fields_canonically fs ext = Ok out).
+Proof.
+  intros fs ext. split.
+  - intros out H. exact (sort_fields_canonically_sorted fs ext out H).
+  - exact (sort_fields_canonically_ok fs ext).
+Qed.
+
+(* the sort is stable (fields with the same key keep their textual order) and leaves an ordered list alone *)
+Theorem C16_set_stable :
+  (forall (k : key) l,
+     filter (fun a => key_eqb (field_key a) k) (sort_by field_cmp l)
+     = filter (fun a => key_eqb (field_key a) k) l)
+  /\ (forall l, Sorted ftag_le l -> sort_by ftag_cmp l = l).
+Proof.
+  split; [exact field_sort_stable|]. intros l H. apply (sort_by_id ftag_cmp). exact H.
+Qed.
+
+(* SEQUENCE keeps the textual order *)
+Theorem C16_sequence_textual :
+  (forall own fs ext l, write_constraints Keep own fs ext = Ok l ->
+     l_wire l = assign_implicit_tags fs /\ map rf_idx (l_wire l) = map rf_idx fs)
+  /\ (forall d l, s_set d = false -> layout_of d = Ok l ->
+        map rf_idx (l_wire l) = seq 0 (length (s_comps d))).
+Proof. split; [exact write_constraints_keep|exact layout_of_sequence_textual]. Qed.
+
+(* The tag a component is ordered by: its own tag if it has one; else, for a reference, what TagResolver
+   finds for the referenced definition; else the universal tag of the type.  The tag an untagged CHOICE
+   contributes is the smallest one of the collected root alternatives.  The emitted TAG constant is that same
+   tag unless the field is untagged and DEFAULT or SET OF. *)
+Theorem C16_tag_rules :
+  (forall fuel e ext i c f, comp_to_rfield fuel e ext i c = Ok f ->
+     rf_idx f = i /\ rf_tag f = c_tag c /\
+     is_optional (rf_ty f) = (match c_pres c with Mandatory => is_addition ext i | _ => true end) /\
+     match c_tag c with
+     | Some t => sort_tag f = Some t
+     | None =>
+         match c_ty c with
+         | TBuiltin k => sort_tag f = Some (builtin_tag k)
+         | TRef rf => resolve_tag fuel e rf = Ok (sort_tag f)
+         | ty => resolve_type_tag fuel e ty = Ok (sort_tag f)
+         end
+     end)
+  /\ (forall ts t, hd_error (sort_by tag_cmp ts) = Some t ->
+        In t ts /\ Forall (fun u => tag_le t u = true) ts)
+  /\ (forall f t, (rf_tag f <> None \/ tag_const_deviates (rf_ty f) = false) ->
+        sort_tag f = Some t -> tag_const (rf_ty f) (rf_tag f) = Ok t).
+Proof.
+  split; [exact comp_effective_tag|]. split; [exact hd_sort_min|exact tag_const_is_sort_tag].
+Qed.
+
+(* context tags 0..n-1 in textual order are assigned exactly when no field of the list carries a tag *)
+Theorem C16_automatic_tags : forall fs,
+  (Exists (fun f => rf_tag f <> None) fs -> assign_implicit_tags fs = fs) /\
+  (Forall (fun f => rf_tag f = None) fs ->
+     map rf_tag (assign_implicit_tags fs)
+       = map (fun i => Some (ContextSpecific, N.of_nat i)) (seq 0 (length fs))
+     /\ map rf_idx (assign_implicit_tags fs) = map rf_idx fs
+     /\ map rf_ty (assign_implicit_tags fs) = map rf_ty fs).
+Proof. exact assign_implicit_tags_spec. Qed.
+
+(* the presence bitmap: STD_OPTIONAL_FIELDS counts, and the codec visits, the OPTIONAL/DEFAULT fields among the
+   first root_count fields of the emitted order -- for a SET these are the root fields in tag order *)
+Theorem C16_presence_order : forall o own fs ext l,
+  write_constraints o own fs ext = Ok l ->
+  l_std_optional l = length (presence_fields (l_wire l) ext) /\ l_extended_after l = ext /\
+  l_own l = match own with Some t => t | None => tag_of_code DEFAULT_SEQUENCE end /\
+  match o with
+  | Keep => l_wire l = assign_implicit_tags fs
+  | Sort => sort_fields_canonically (assign_implicit_tags fs) ext = Ok (l_wire l)
+  end.
+Proof. exact write_constraints_consts. Qed.
+
+(* ------------------------------------------------------------------------- *)
+(** * Known deviations: classes *)
+
+(* no AUTOMATIC TAGS in the module header, yet no component is tagged: the code numbers them anyway *)
+Definition Known_C16_context_tags_without_automatic_tags (d : sdef) : Prop :=
+  s_auto d = false /\ s_comps d <> [] /\ Forall (fun c => c_tag c = None) (s_comps d).
+(* extension additions of a SET whose tags do not ascend in textual order (X.691 21.1 keeps them textual) *)
+Definition Known_C16_additions_sorted_by_tag (fs : list rfield) (ext : option nat) : Prop :=
+  ~ Sorted ftag_le (skipn (root_count ext (length fs)) (map fill fs)).
+(* `...` in front of the first component *)
+Definition Known_C16_marker_before_first_component (d : sdef) : Prop :=
+  s_marker d = Some O /\ s_comps d <> [].
+Definition Known_C16_empty_extensible_panic (d : sdef) : Prop :=
+  s_marker d <> None /\ s_comps d = [].
+(* untagged DEFAULT or SET OF field: TAG constant UNIVERSAL 16 *)
+Definition Known_C16_field_tag_const (f : rfield) : Prop :=
+  rf_tag f = None /\ tag_const_deviates (rf_ty f) = true.
+(* an untagged SET: own TAG constant UNIVERSAL 16 *)
+Definition Known_C16_set_own_tag (d : sdef) : Prop := s_set d = true /\ s_own d = None.
+(* AUTOMATIC TAGS module, untagged component whose type is an untagged CHOICE without tagged alternatives *)
+Fixpoint chases_untagged_choice (fuel : nat) (e : env) (ty : aty) : bool :=
+  match fuel with
+  | O => false
+  | S f =>
+      match ty with
+      | TChoice _ alts => forallb (fun a => match fst a with None => true | Some _ => false end) alts
+      | TRef (RIdx j) =>
+          match nth_error e j with
+          | Some d => match d_tag d with None => chases_untagged_choice f e (d_ty d) | Some _ => false end
+          | None => false
+          end
+      | _ => false
+      end
+  end.
+Definition Known_C16_untagged_choice_ref_automatic (d : sdef) : Prop :=
+  s_auto d = true /\
+  Exists (fun c => c_tag c = None /\ chases_untagged_choice (fuel_for (s_env d)) (s_env d) (c_ty c) = true) (s_comps d).
+
+(* what remains true outside the classes that have a positive counterpart at this level *)
+Theorem C16_conformant :
+  (* additions stay textual unless their tags are out of order *)
+  (forall fs ext out, sort_fields_canonically fs ext = Ok out ->
+     ~ Known_C16_additions_sorted_by_tag fs ext ->
+     out = sort_by ftag_cmp (firstn (root_count ext (length fs)) (map fill fs))
+           ++ skipn (root_count ext (length fs)) (map fill fs))
+  (* the TAG constant is the tag the field is ordered by *)
+  /\ (forall f t, ~ Known_C16_field_tag_const f -> sort_tag f = Some t ->
+        tag_const (rf_ty f) (rf_tag f) = Ok t)
+  (* the root fields are the components in front of the marker *)
+  /\ (forall d, ~ Known_C16_marker_before_first_component d -> ~ Known_C16_empty_extensible_panic d ->
+        root_count (ext_after_of_marker (s_marker d)) (length (s_comps d))
+        = match s_marker d with None => length (s_comps d) | Some p => Nat.min p (length (s_comps d)) end)
+  (* the type's own TAG constant: right for every SEQUENCE and every tagged SET *)
+  /\ (forall o own fs ext l, write_constraints o own fs ext = Ok l ->
+        ~ (o = Sort /\ own = None) ->
+        l_own l = match own with
+                  | Some t => t
+                  | None => tag_of_code (match o with Keep => DEFAULT_SEQUENCE | Sort => DEFAULT_SET end)
+                  end).
+Proof.
+  split.
+  { intros fs ext out H HK. apply sort_fields_canonically_additions_textual; [exact H|].
+    unfold Known_C16_additions_sorted_by_tag in HK.
+    set (l := skipn _ _) in *.
+    (* Sorted is decidable here only classically; derive it from the double negation by induction on l *)
+    assert (Hdec : forall l : list rfield, Sorted ftag_le l \/ ~ Sorted ftag_le l).
+    { clear. induction l as [|x l IH]; [left; constructor|].
+      destruct IH as [IH|IH].
+      - destruct l as [|y l].
+        + left. repeat constructor.
+        + destruct (ftag_cmp x y) eqn:E.
+          * left. constructor; [exact IH|]. constructor. unfold ftag_le. rewrite E. discriminate.
+          * left. constructor; [exact IH|]. constructor. unfold ftag_le. rewrite E. discriminate.
+          * right. intros HS. inversion HS as [|? ? _ Hhd]; subst. inversion Hhd as [|? ? Hle]; subst.
+            unfold ftag_le in Hle. congruence.
+      - right. intros HS. inversion HS; subst. auto. }
+    destruct (Hdec l) as [HS|HS]; [exact HS|contradiction]. }
+  split.
+  { intros f t HK Hs. apply tag_const_is_sort_tag; [|exact Hs].
+    unfold Known_C16_field_tag_const in HK.
+    destruct (rf_tag f) eqn:E; [left; discriminate|].
+    right. destruct (tag_const_deviates (rf_ty f)) eqn:E2; [|reflexivity]. exfalso. apply HK. auto. }
+  split.
+  { intros d HK1 HK2. destruct (s_marker d) as [p|] eqn:E; [|reflexivity].
+    destruct p as [|p].
+    - (* marker first: then there are no components (else Known), and then Known empty_extensible *)
+      exfalso. destruct (s_comps d) eqn:EC.
+      + apply HK2. split; congruence.
+      + apply HK1. split; congruence.
+    - apply root_count_marker. discriminate. }
+  { intros o own fs ext l H HK. apply write_constraints_consts in H. destruct H as [_ [_ [H _]]].
+    rewrite H. destruct own; [reflexivity|]. destruct o; [reflexivity|]. exfalso. apply HK. auto. }
+Qed.
+
+(* ------------------------------------------------------------------------- *)
+(** * Witnesses: the code against the standard on concrete definitions *)
+
+Definition untagged (k : bkind) (p : presence) : comp := {| c_tag := None; c_ty := TBuiltin k; c_pres := p |}.
+Definition tagged (t : tag) (k : bkind) (p : presence) : comp := {| c_tag := Some t; c_ty := TBuiltin k; c_pres := p |}.
+Definition mk (is_set : bool) (marker : option nat) (auto : bool) (cs : list comp) (e : env) : sdef :=
+  {| s_set := is_set; s_marker := marker; s_auto := auto; s_own := None; s_comps := cs; s_env := e |}.
+
+(* Mod DEFINITIONS ::= BEGIN Top ::= SET { c0 INTEGER, c1 BOOLEAN } END
+   X.680 without AUTOMATIC TAGS: tags UNIVERSAL 2 and UNIVERSAL 1, canonical order c1, c0.
+   asn1rs: tags [0] and [1], order c0, c1. *)
+Theorem C16_refuted_context_tags_without_automatic_tags :
+  exists d l, Known_C16_context_tags_without_automatic_tags d /\ s_set d = true /\
+    layout_of d = Ok l /\
+    map rf_idx (l_wire l) = [0; 1]%nat /\
+    l_tags l = [(ContextSpecific, 0); (ContextSpecific, 1)] /\
+    map c_ty (s_comps d) = [TBuiltin KInt; TBuiltin KBool] /\
+    x680_lt (builtin_tag KBool) (builtin_tag KInt).
+Proof.
+  exists (mk true None false [untagged KInt Mandatory; untagged KBool Mandatory] []).
+  eexists. split.
+  { split; [reflexivity|]. split; [discriminate|]. repeat constructor. }
+  split; [reflexivity|]. split; [vm_compute; reflexivity|].
+  split; [reflexivity|]. split; [reflexivity|]. split; [reflexivity|].
+  right. vm_compute. split; reflexivity.
+Qed.
+
+(* Top ::= SET { c0 [0] INTEGER, ..., c1 [2] INTEGER, c2 [1] INTEGER }
+   X.691 21.1: c0, c1, c2 (additions in textual order).  asn1rs: c0, c2, c1. *)
+Theorem C16_refuted_additions_sorted_by_tag :
+  exists d l, s_set d = true /\ s_marker d = Some 1%nat /\ layout_of d = Ok l /\
+    map rf_idx (l_wire l) = [0; 2; 1]%nat /\
+    l_tags l = [(ContextSpecific, 0); (ContextSpecific, 1); (ContextSpecific, 2)].
+Proof.
+  exists (mk true (Some 1%nat) true
+            [tagged (ContextSpecific, 0) KInt Mandatory; tagged (ContextSpecific, 2) KInt Mandatory;
+             tagged (ContextSpecific, 1) KInt Mandatory] []).
+  eexists. split; [reflexivity|]. split; [reflexivity|]. split; [vm_compute; reflexivity|].
+  split; reflexivity.
+Qed.
+
+(* Top ::= SET { ..., c0 [1] INTEGER OPTIONAL, c1 [0] BOOLEAN }
+   X.680: no root component, two additions.  asn1rs: EXTENDED_AFTER_FIELD = Some(0), c0 is a root field with
+   a presence bit. *)
+Theorem C16_refuted_marker_before_first_component :
+  exists d l, Known_C16_marker_before_first_component d /\ layout_of d = Ok l /\
+    l_extended_after l = Some 0%nat /\ l_std_optional l = 1%nat /\ map rf_idx (l_wire l) = [0; 1]%nat.
+Proof.
+  exists (mk true (Some 0%nat) true
+            [tagged (ContextSpecific, 1) KInt Optional; tagged (ContextSpecific, 0) KBool Mandatory] []).
+  eexists. split; [split; [reflexivity|discriminate]|]. split; [vm_compute; reflexivity|].
+  repeat split; reflexivity.
+Qed.
+
+(* Top ::= SEQUENCE { ... } : RustCodeGenerator indexes fields[0] of an empty list *)
+Theorem C16_refuted_empty_extensible_panic :
+  exists d, Known_C16_empty_extensible_panic d /\ layout_of d = Panic P_INDEX_OOB.
+Proof.
+  exists (mk false (Some 0%nat) true [] []). split; [split; [discriminate|reflexivity]|].
+  vm_compute. reflexivity.
+Qed.
+
+(* Mod DEFINITIONS AUTOMATIC TAGS ::= BEGIN Top ::= SET { c0 [APPLICATION 1] BOOLEAN, c1 R0 }
+   R0 ::= CHOICE { a0 INTEGER, a1 BOOLEAN } END
+   X.680: the alternatives of R0 are automatically tagged [0], [1]; c1 is ordered by [0].
+   asn1rs: c1 is ordered by (and carries) UNIVERSAL 1. *)
+Theorem C16_refuted_untagged_choice_ref_automatic :
+  exists d l, Known_C16_untagged_choice_ref_automatic d /\ layout_of d = Ok l /\
+    map rf_idx (l_wire l) = [1; 0]%nat /\ l_tags l = [(Universal, 1); (Application, 1)].
+Proof.
+  exists (mk true None true
+            [tagged (Application, 1) KBool Mandatory; {| c_tag := None; c_ty := TRef (RIdx 0); c_pres := Mandatory |}]
+            [{| d_tag := None; d_ty := TChoice None [(None, TBuiltin KInt); (None, TBuiltin KBool)] |}]).
+  eexists. split.
+  { split; [reflexivity|]. apply Exists_cons_tl. apply Exists_cons_hd. split; reflexivity. }
+  split; [vm_compute; reflexivity|]. split; reflexivity.
+Qed.
+
+(* Top ::= SET { c0 [0] BOOLEAN, c1 INTEGER DEFAULT 0, c2 SET OF INTEGER }
+   asn1rs orders c1 by UNIVERSAL 2 and c2 by UNIVERSAL 17 but emits TAG = UNIVERSAL 16 for both. *)
+Theorem C16_refuted_field_tag_const :
+  exists d l fs, layout_of d = Ok l /\
+    comps_to_rfields (fuel_for (s_env d)) (s_env d) None 0 (s_comps d) = Ok fs /\
+    Forall Known_C16_field_tag_const (skipn 1 fs) /\
+    map rf_idx (l_wire l) = [1; 2; 0]%nat /\
+    l_tags l = [(Universal, 16); (Universal, 16); (ContextSpecific, 0)] /\
+    map sort_tag (l_wire l) = [Some (Universal, 2); Some (Universal, 17); Some (ContextSpecific, 0)].
+Proof.
+  exists (mk true None true
+            [tagged (ContextSpecific, 0) KBool Mandatory; untagged KInt Default; untagged KSetOf Mandatory] []).
+  eexists. eexists. split; [vm_compute; reflexivity|]. split; [vm_compute; reflexivity|].
+  split; [cbn [skipn]; constructor; [split; reflexivity|]; constructor; [split; reflexivity|]; constructor|].
+  split; [reflexivity|]. split; reflexivity.
+Qed.
+
+(* Top ::= SET { } : own TAG constant UNIVERSAL 16, X.680: UNIVERSAL 17 (= Tag::DEFAULT_SET) *)
+Theorem C16_refuted_set_own_tag :
+  exists d l, Known_C16_set_own_tag d /\ layout_of d = Ok l /\
+    l_own l = (Universal, 16) /\ tag_of_code DEFAULT_SET = (Universal, 17).
+Proof.
+  exists (mk true None true [] []). eexists. split; [split; reflexivity|].
+  split; [vm_compute; reflexivity|]. split; reflexivity.
+Qed.
+
+(* non-vacuity: a SET in an AUTOMATIC TAGS module with mixed classes, a reference and an addition goes
+   through the whole path and comes out in canonical order; the hypotheses of the theorems above are
+   inhabited by it.
+   Top ::= SET { c0 [PRIVATE 1] INTEGER, c1 R0 OPTIONAL, c2 [5] BOOLEAN, c3 [APPLICATION 30] NULL, ...,
+                 c4 [0] UTF8String }        R0 ::= ENUMERATED { .. } *)
+Example C16_nonvacuous :
+  let d := mk true (Some 4%nat) true
+             [tagged (Private, 1) KInt Mandatory;
+              {| c_tag := None; c_ty := TRef (RIdx 0); c_pres := Optional |};
+              tagged (ContextSpecific, 5) KBool Mandatory;
+              tagged (Application, 30) KNull Mandatory;
+              tagged (ContextSpecific, 0) KUtf8 Mandatory]
+             [{| d_tag := None; d_ty := TConstr KEnum |}] in
+  exists l, layout_of d = Ok l /\
+    map rf_idx (l_wire l) = [1; 3; 2; 0; 4]%nat /\
+    l_tags l = [(Universal, 10); (Application, 30); (ContextSpecific, 5); (Private, 1); (ContextSpecific, 0)] /\
+    l_std_optional l = 1%nat /\ l_extended_after l = Some 3%nat /\
+    ~ Known_C16_marker_before_first_component d /\ ~ Known_C16_empty_extensible_panic d /\
+    ~ Known_C16_context_tags_without_automatic_tags d /\
+    Forall (fun f => sort_tag f <> None) (l_wire l) /\
+    Sorted ftag_le (firstn 4 (l_wire l)).
+Proof.
+  cbv zeta. eexists. split; [vm_compute; reflexivity|].
+  split; [reflexivity|]. split; [reflexivity|]. split; [reflexivity|]. split; [reflexivity|].
+  split; [intros [H _]; discriminate|]. split; [intros [_ H]; discriminate|].
+  split; [intros [H _]; discriminate|].
+  split; [repeat constructor; discriminate|].
+  repeat constructor; discriminate.
+Qed.
+
+Print Assumptions C16_canonical_le_is_X680_8_6.
+Print Assumptions C16_set_sorted.
+Print Assumptions C16_set_stable.
+Print Assumptions C16_sequence_textual.
+Print Assumptions C16_tag_rules.
+Print Assumptions C16_automatic_tags.
+Print Assumptions C16_presence_order.
+Print Assumptions C16_conformant.
+Print Assumptions C16_refuted_context_tags_without_automatic_tags.
+Print Assumptions C16_refuted_additions_sorted_by_tag.
+Print Assumptions C16_refuted_marker_before_first_component.
+Print Assumptions C16_refuted_empty_extensible_panic.
+Print Assumptions C16_refuted_untagged_choice_ref_automatic.
+Print Assumptions C16_refuted_field_tag_const.
+Print Assumptions C16_refuted_set_own_tag.
